@@ -52,6 +52,11 @@ class SimLoop(asyncio.SelectorEventLoop):
                 self._vt = when
         elif self._tick:
             self._vt += self._tick
+        if not self._ready and not self._scheduled and not self._stopping:
+            # nothing is ready, no timer is pending and nothing outside the loop can wake it (no threads: the executor
+            # runs inline; no real sockets): select() would block for ever. Every task waits for something that cannot
+            # happen any more — reported at once instead of after the wall-clock backstop.
+            raise WallClockGuard('deadlock: every task waits for something that cannot happen (nothing ready, no timer)')
         super()._run_once()
 
     def run_in_executor(self, executor, func, *args):
